@@ -338,8 +338,19 @@ func Run(prop, tier string, seed int64, repoDir, verifDir string, verbose bool) 
 		}
 	}
 	confirmedPath, confirmedWhat := "", ""
+	if os.Getenv("VP_FORCE_CONFIRM") != "" && spec.Confirm != nil {
+		abstractSat = true // debug: run the native confirmation sweep although no abstract counterexample exists
+	}
 	if abstractSat && spec.Confirm != nil {
+		if os.Getenv("VP_CORPUS") == "" {
+			if corpus, _, err := writeCorpus(repoDir, w.TmpDir); err == nil {
+				os.Setenv("VP_CORPUS", corpus)
+			}
+		}
 		out, _ := w.ReplayTapeTimeout(spec.Confirm.Pkg, spec.Confirm.Sweep, filepath.Join(w.TmpDir, "none.json"), "1200s")
+		if os.Getenv("VP_FORCE_CONFIRM") != "" {
+			fmt.Println("NOTE forced confirmation sweep output:", tailStr(out, 3000))
+		}
 		for _, l := range strings.Split(out, "\n") {
 			if strings.HasPrefix(l, "VP-CONFIRMED ") {
 				parts := strings.SplitN(strings.TrimPrefix(l, "VP-CONFIRMED "), "|", 3)
